@@ -366,6 +366,13 @@ class TransformedParameter(AbstractParameter, Parametric, collections.abc.Callab
             self.x = CatParameter(None, x, -1)
         else:
             self.x = x
+        # parameters and models held by the transform (e.g. the loc of an
+        # AffineTransform, the rate and tree of a RescaledRateTransform)
+        for value in vars(transform).values():
+            if isinstance(value, AbstractParameter):
+                value.add_parameter_listener(self)
+            elif hasattr(value, 'add_model_listener'):
+                value.add_model_listener(self)
         self._tensor = self.transform(self.x.tensor)
         self.listeners = []
 
@@ -416,7 +423,8 @@ class TransformedParameter(AbstractParameter, Parametric, collections.abc.Callab
         self.fire_parameter_changed()
 
     def handle_model_changed(self, model, obj, index) -> None:
-        pass
+        self.need_update = True
+        self.fire_parameter_changed()
 
     def add_parameter_listener(self, listener) -> None:
         self.listeners.append(listener)
